@@ -11,7 +11,8 @@ USED = ("zero-sized element types; element types without drop glue; `Copy` eleme
  "iterators with under-/over-stating exact size hints; non-fused iterators; a panic of the wrapped iterator's next() or size_hint(), of Clone, of a destructor or of the user's closure at any position; "
  "pulls or skip_to_end issued from a thread that is already unwinding; skip_to_end racing with an in-flight pull; partially consumed, leaked (mem::forget) or late-dropped buffered chunks and buffered iterators; "
  "nth/fold/count/last/len/size_hint on chunk iterators and on values()/ids_and_values(); clone() and clone_from() at any point incl. after exhaustion; the public low-level AtomicIter methods (get, fetch_n, early_exit, progress_and_get_begin_idx) called directly; "
- "moving the iterator value to another address between operations; Debug-formatting")
+ "moving the iterator value to another address between operations; Debug-formatting; timing / spin-count thresholds in wait loops (a thread kept waiting for seconds or for millions of spin rounds); "
+ "a wrapped iterator whose *type* is zero-sized; re-entrancy (the wrapped iterator's next() querying or skipping the concurrent iterator around it); new Clone / Drop / Iterator-method impls or new struct fields (the set of impls, overridden methods, derives and fields is compared against a fixed list)")
 for p in sys.argv[1:]:
     P = props[p]
     t = TEMPLATE[:head_end].replace('C05', p)
@@ -21,7 +22,7 @@ for p in sys.argv[1:]:
     body = re.sub(r"The following TRIGGERS have all been used and are now routinely exercised, so a change that needs only one of them is of little value: .*?\. Find a trigger",
                   "The following TRIGGERS have all been used and are now routinely exercised, so a change that needs only one of them is of little value: " + USED + ". Find a trigger", body, flags=re.S)
     body = re.sub(r"\(examples of unexplored directions, not a recipe: .*?\)\.",
-                  "(examples of unexplored directions, not a recipe: alignment / layout / niche optimisation of element types, very many threads, re-entrancy (the user's closure, a destructor or the wrapped iterator's next() itself using the same concurrent iterator), the From/Into/IntoConcurrentIter/ConcurrentIterable conversions and Default impls, nested adaptors, into_seq_iter of adaptors, interaction of two different concurrent iterators over the same data, behaviour that depends on the CPU count or on timing thresholds, generic bounds / auto traits / variance of the public types, `const` contexts, element types whose Drop/Clone use thread-locals).", body, flags=re.S)
+                  "(examples of unexplored directions, not a recipe: alignment / layout / niche optimisation of element types, very many threads (more than 4), the user's closure of for_each/fold pulling from the same iterator, the From/Into/IntoConcurrentIter/ConcurrentIterable conversions and Default impls, nested adaptors (cloned() of cloned(), values() wrapped again), into_seq_iter of adaptors, two different concurrent iterators over the same data, behaviour that depends on the CPU count, generic bounds / variance of the public types, element types whose Drop/Clone use thread-locals, behaviour that differs between the first and later uses of a buffered iterator, chunk sizes that are powers of two or exceed some internal constant, sources longer than u32::MAX, subtle changes inside EXISTING function bodies rather than new impls).", body, flags=re.S)
     t += body
     t += "Changes already collected for this property (do something DIFFERENT in mechanism and location):\n"
     for d in sorted(glob.glob('/verif/seeded/%s-*' % p), key=lambda x: int(x.split('-')[-1])):
